@@ -28,8 +28,8 @@ theorem Store.get_set_other (s : Store) (id id' v : Bytes) (h : id' ≠ id) : (s
         exact ih
 
 /-- sign-and-set either fails or returns and sets the same bytes -/
-theorem signAndSet_cases (cfg : Cfg) (env : Env) (n : Note.Note) (c : Ctr) :
-    let o := signAndSet cfg env n c
+theorem signAndSet_cases (cfg : Cfg) (env : Env) (l : LogInfo) (n : Note.Note) (c : Ctr) :
+    let o := signAndSet cfg env l n c
     (o.err = .none ∧ ∃ v, o.ret = some v ∧ o.set = some v ∧ env.setErr = false) ∨
     (o.err ≠ .none ∧ o.ret = none) := by
   unfold signAndSet
@@ -55,7 +55,7 @@ theorem update_cases (cfg : Cfg) (env : Env) (id : Bytes) (old : Nat) (next : By
       by_cases hw : env.writeOpsErr = true
       · simp [hw]
       · simp only [hw, Bool.false_eq_true, if_false]
-        have hs := signAndSet_cases cfg env nn { attempt := 1 }
+        have hs := signAndSet_cases cfg env l nn { attempt := 1 }
         cases hprev : env.prev with
         | readErr => simp
         | notFound =>
